@@ -20,6 +20,11 @@ def r7(ctx):
 
 
 RULES = {
+    # the two writers stay in step: serialize_mappings, too, skips exact duplicates only (the ordinal counted by the
+    # range-mapping writer is the ordinal of the segment the mappings writer emits)
+    "C07.R3m": lambda ctx: encrules.only_duplicates_skipped(ctx, "C07.R3m"),
+    # the reader accepts what the writer produces: no further rejection (e.g. a length limit on rangeMappings) in the decoder
+    "C07.R10": lambda ctx: decoderrules.rejections_exact(ctx, "C07.R10"),
     # what the writer puts under rangeMappings is serialize_range_mappings of the map as it is now (no memo of an earlier encode)
     "C07.R9": lambda ctx: encrules.optional_keys(ctx, "C07.R9"),
     "C07.RG": lambda ctx: __import__("rules.foundations", fromlist=["x"]).no_global_state(ctx, "C07.RG"),
